@@ -43,6 +43,14 @@ Proof.
   induction l as [|x r IH]; intros [|n] [|k] H; cbn; auto; try lia. apply IH. lia.
 Qed.
 
+Lemma nth_error_skipn' {A} (l : list A) : forall k n,
+  nth_error (skipn k l) n = nth_error l (k + n).
+Proof.
+  induction l as [|x r IH]; intros [|k] n; cbn [skipn Nat.add nth_error]; try reflexivity.
+  - destruct n; reflexivity.
+  - apply IH.
+Qed.
+
 Lemma nth_error_map' {A B} (f : A -> B) (l : list A) : forall n,
   nth_error (map f l) n = option_map f (nth_error l n).
 Proof. induction l as [|x r IH]; intros [|n]; cbn; auto. Qed.
@@ -544,4 +552,54 @@ Proof.
   - destruct Hbal as [pu [Hk [_ [-> _]]]]. unfold bal_add_amount.
     apply get_set_other. intros E. apply (Hacc pu); [eapply nth_error_In; eauto|congruence].
   - destruct Hbal as [-> _]. reflexivity.
+Qed.
+
+(* an assigned account that no other posting of the transaction names ends the transaction
+   at the assigned value *)
+Lemma assign_single_final s t s' i p bc c v :
+  bal_wf (s_bal s) ->
+  add_transaction s t = Ok s' ->
+  nth_error (t_posts t) i = Some p -> assignment p bc -> eval_pa bc = Ok (PSingle c v) ->
+  (forall j pj, j <> i -> nth_error (t_posts t) j = Some pj -> p_account pj <> p_account p) ->
+  a_get (bal_get (s_bal s') (p_account p)) c = v.
+Proof.
+  intros Hwf H Hi Has He Hother.
+  destruct (assign_single_exact_txn _ _ _ _ _ _ _ _ H Hi Has He) as [b [b' [posts' [_ [Hb' [_ [_ Hv]]]]]]].
+  specialize (Hv Hwf).
+  destruct (add_transaction_ok_inv _ _ _ H) as [st [ps [Hl [_ [_ [_ [_ [_ Hbal]]]]]]]].
+  assert (get (p_account p) (l_bal st) = get (p_account p) b') as Hframe.
+  { destruct Hb' as [stb [Hlb <-]]. rewrite txn_prefix_loop in Hlb.
+    pose proof Hl as Hr. rewrite txn_loop_run in Hr.
+    destruct (run_split _ _ _ _ _ _ _ Hr Hi) as [stk [stk' [_ [_ [G3 G4]]]]].
+    rewrite Hlb in G3. injection G3 as <-.
+    apply (run_frame _ _ _ _ _ _ G4).
+    intros q Hq. apply In_nth_error in Hq. destruct Hq as [n Hn].
+    apply (Hother (S i + n)%nat q); [lia|].
+    rewrite <- Hn. symmetry. apply nth_error_skipn'. }
+  assert (get (p_account p) (s_bal s') = get (p_account p) (l_bal st)) as Hfin.
+  { destruct (l_unfilled st) as [u|] eqn:Eu.
+    - destruct Hbal as [pu [Hu [Hpu [-> _]]]]. unfold bal_add_amount.
+      apply get_set_other. intros E. apply (Hother u pu); [|exact Hu|congruence].
+      intros ->. destruct Hpu as [_ Hpu], Has as [_ Has]. congruence.
+    - destruct Hbal as [-> _]. reflexivity. }
+  unfold bal_get in *. rewrite Hfin, Hframe. exact Hv.
+Qed.
+
+(* the omitted amount, commodity by commodity: minus the sum of the other postings'
+   balancing values (the omitted posting itself contributes nothing) *)
+Lemma omitted_pointwise s t st u :
+  txn_loop s t = Ok st -> l_unfilled st = Some u ->
+  exists bvs,
+    length bvs = length (t_posts t) /\
+    nth_error bvs u = Some None /\
+    (forall k p, nth_error (t_posts t) k = Some p ->
+       exists b o, bal_before s t k b /\ nth_error bvs k = Some o /\ posting_bv b p o) /\
+    forall c, a_get (a_neg (l_residual st)) c = - qc_sum (map (fun o => bv_get o c) bvs).
+Proof.
+  intros H Hu. destruct (residual_sum _ _ _ H) as [bvs [L [E Hn]]].
+  exists bvs. split; [exact L|]. split; [|split; [exact Hn|]].
+  - destruct (omitted_exact _ _ _ _ H Hu) as [pu [_ [Hk [[Hp1 Hp2] _]]]].
+    destruct (Hn u pu Hk) as [b [o [_ [Ho Hbv]]]]. rewrite Ho. f_equal.
+    inversion Hbv as [|bc c v [_ Hb]|bc cur [_ Hb]|e am v Ha]; subst; try reflexivity; congruence.
+  - intros c. rewrite a_get_neg, E, a_get_sum_bvs. reflexivity.
 Qed.
